@@ -38,7 +38,7 @@ def TR(kind, rounds, steps):
                 why="a recorded history of real replicas is not one the specification of the datatype allows")
 
 
-def traces(tier, kinds=("list", "map", "counter")):
+def traces(tier, kinds=("list", "map", "counter", "doc")):
     if tier == "quick":
         return [TR(k, 4, 150) for k in kinds]
     return [TR(k, 25, 220) for k in kinds] + [TR(k, 25, 221) for k in kinds if k == "list"]
@@ -198,8 +198,8 @@ def jobs(prop, tier):
         if q:
             return [E("list_edge3", "list", 3), E("list_edgeb", "list", 2), E("list_edge", "list", 2, rate=0.25), S("list_sim", "list", 3, 80, 40),
                     # the arrays of a Document (element identity = the unique tag of an inserted primitive)
-                    E("doc_edge", "doc", 2, rate=0.5), S("doc_sim", "doc", 3, 60, 40)] + traces(tier, ("list",))
-        return traces(tier, ("list",)) + [M("list_mc", "list"), M("list_mc3", "list"), E("list_edge3", "list", 3), E("list_edgeb", "list", 2), E("list_edge", "list", 2),
+                    E("doc_edge", "doc", 2, rate=0.5), S("doc_sim", "doc", 3, 60, 40)] + traces(tier, ("list", "doc"))
+        return traces(tier, ("list", "doc")) + [M("list_mc", "list"), M("list_mc3", "list"), E("list_edge3", "list", 3), E("list_edgeb", "list", 2), E("list_edge", "list", 2),
                 S("list_sim", "list", 3, 800, 50), S("list_sim4", "list", 4, 500, 60),
                 M("doc_mc", "doc"), E("doc_edge", "doc", 2), E("doc_edgeo", "doc", 2), S("doc_sim", "doc", 3, 600, 50)]
     if prop == "C03":
